@@ -267,11 +267,15 @@ pub fn run(cfg: &RunCfg, t0: Instant) -> i32 {
                     g.weights = [40, 20, 8, 10, 6, 3, 1, 1, 2];
                 })
             });
+            let kn = cfg.pick(40_000, 400_000);
+            let krep = crate::run_shards(cfg, 16, |s| c03::cp_kernel(cfg.seed * 7001 + s as u64, kn));
+            rep.merge(krep);
+            rep.floor("cp_k_kernel", 100_000);
             rep.floor("cp_k", 500);
             rep.floor("ss_D", 500);
             rep.floor("round_trip", 200);
             fin(rep, cfg, "exploration",
-                "W-pool (swap-heavy mix): every executed hop (direct, routed, internal swap of single-asset deposits) is judged with exact big-integer x*y resp. exact Curve D from the reserves before/after; every 6th step a forked there-and-back trade (1-3 pools, proceeds returned in 1-4 chunks) is executed and the trader's balance compared; distinct = (pool, direction, offer magnitude, path)",
+                "W-kernel (constant product): compute_swap on 6.4e5 (quick) generated states biased to huge reserves, integer price ratios, powers of ten and dust offers, gross output <= floor(ask x offer / (pool + offer)); W-pool (swap-heavy mix): every executed hop (direct, routed, internal swap of single-asset deposits) is judged with exact big-integer x*y resp. exact Curve D from the reserves before/after; every 6th step a forked there-and-back trade (1-3 pools, proceeds returned in 1-4 chunks) is executed and the trader's balance compared; distinct = (pool, direction, offer magnitude, path)",
                 &[ASSUME_CHAIN, ASSUME_BOUNDS, "exact D resolved to 1e-6 of a normalised smallest unit; a decrease below that resolution is not reported"],
                 t0,
                 json!({"shards": shards, "ops_per_shard": n}),
